@@ -17,6 +17,7 @@ import (
 	"io"
 	"net"
 	"net/http"
+	"os"
 	"sort"
 	"strconv"
 	"strings"
@@ -660,7 +661,15 @@ func (e *Ex) Do(op string) core.Result {
 		if e.w == nil {
 			e.w = &world{recs: map[string]*exRec{}, items: map[string]*item{}}
 		}
-		return e.runScenario()
+		t0 := time.Now()
+		res := e.runScenario()
+		if d := time.Since(t0); d > 400*time.Millisecond && os.Getenv("VERIF_PXY_SLOW") != "" {
+			fmt.Fprintf(os.Stderr, "SLOW %v conn=%v\n", d, e.conn)
+			for _, id := range e.ids {
+				fmt.Fprintf(os.Stderr, "   %s\n", e.w.items[id].raw)
+			}
+		}
+		return res
 	case "junk":
 		return e.junk(toks)
 	}
@@ -905,7 +914,7 @@ func (e *Ex) runScenario() core.Result {
 						}
 						cc.c.Write(req[i:j])
 					}
-				} else if it.n("ea", 0) > 0 {
+				} else if earlyOK(it) {
 					if err := e.sendGated(cc, req, id); err != nil {
 						alive = false
 						continue
@@ -1047,6 +1056,8 @@ func isTimeout(err error) bool {
 	return err != nil && errors.As(err, &ne) && ne.Timeout()
 }
 
+func rqIsErr(rq string) bool { return rq == "err" || rq == "errskip" }
+
 func b01(x bool) string {
 	if x {
 		return "1"
@@ -1115,6 +1126,13 @@ func (e *Ex) report(open bool, left int, probeID string) core.Result {
 		if !servedBefore {
 			failf("c01:served-after-gap", "exchange %d served after an unserved one", idx)
 		}
+		if (rqIsErr(rq) || rs == "err") && r.reqmod > 0 && r.hij == "" && !r.got {
+			ek := it.s("ek", "plain")
+			if !rqIsErr(rq) {
+				ek = it.s("sek", "plain")
+			}
+			failf("c02:error-aborted-exchange", "exchange %d: a modifier error (value kind %q) aborted the exchange: no response reached the client", idx, ek)
+		}
 		if r.reqmod != 1 {
 			failf("c02:reqmod-count", "exchange %d: request modifier ran %d times", idx, r.reqmod)
 		}
@@ -1159,9 +1177,6 @@ func (e *Ex) report(open bool, left int, probeID string) core.Result {
 		}
 		if rs == "err" && r.got && r.ws < 1 {
 			failf("c02:no-warning-response", "exchange %d: response modifier error but no Warning on the response", idx)
-		}
-		if (rq == "err" || rs == "err") && !hijackedHere && !r.got {
-			failf("c02:error-aborted-exchange", "exchange %d: a modifier error aborted the exchange (no response)", idx)
 		}
 		if it.kind == "x" && (rq == "skip" || rq == "errskip") {
 			if r.upCount != 0 || r.dialed != 0 {
